@@ -77,6 +77,8 @@ func init() {
 			if vpS(in0, "mode") != "off" {
 				cfg.ReverseProxy = true
 				cfg.RealIPHeader = vpS(in0, "ipHeader")
+			} else if h := vpS(in0, "ipHeader"); h != "X-Real-IP" {
+				cfg.RealIPHeader = h // configured, but reverse-proxy mode stays off
 			}
 			w, err := vpNewWorld(cfg)
 			if err != nil {
